@@ -2,8 +2,8 @@
 //
 // Bounded-exhaustive exploration over configurations (the process time zone) x inputs:
 //
-//	(a) for every zone, types.ToDate for EVERY calendar day of the tier's range (quick 1900-01-01 ..
-//	    2100-12-31, thorough 0001-01-02 .. 9999-12-31): year/month/day, String() and the BCD wire
+//	(a) for every zone, types.ToDate for EVERY calendar day of the tier's range (quick 1600-01-01 ..
+//	    2400-12-31, thorough 0001-01-02 .. 9999-12-31): year/month/day, String() and the BCD wire
 //	    form must be the civil day asked for;
 //	(b) the same pass probes every day's 00:00 with time.Date in the zone and flags the days whose
 //	    00:00 does not exist or whose UTC offset differs between 00:00 and 24:00; for the flagged
@@ -108,7 +108,9 @@ func tierRange(r *vk.Run) (lo, hi int64) {
 	if r.Thorough() {
 		return ordinal(1, 1, 2), ordinal(9999, 12, 31)
 	}
-	return ordinal(1900, 1, 1), ordinal(2100, 12, 31)
+	// quick: wide enough to straddle 1678 and 2262 (time.Duration saturates at about +-292 years
+	// around 1970), 1901 and 2038 (32-bit seconds) as well as every rule change in tzdata
+	return ordinal(1600, 1, 1), ordinal(2400, 12, 31)
 }
 
 // calendarSelfTest cross-checks the hand-written day-number functions against the time package
